@@ -31,7 +31,13 @@ func TestMain(m *testing.M) {
 	vkit.Main(m)
 }
 
-var ids = []string{"roots", "rootsx", "current", "next", "nodeinfo", "alpha-bravo", "alpha-bravo-charlie", "A", "a", "2NEpo7TZRRrLZSi2U", "roots.bak", "x y"}
+var ids = []string{"roots", "rootsx", "current", "next", "nodeinfo", "alpha-bravo", "alpha-bravo-charlie", "A", "a", "2NEpo7TZRRrLZSi2U", "roots.bak", "x y",
+	// IDs that are not a single path element. A back end may refuse them (then nothing
+	// changes), but an accepted store is a store like any other: it loads back, is
+	// listed, and touches no other entry.
+	"a/b", "../nodeinfo/A", "../nodecreds/a", "nodeinfo/../a", "..", "a/"}
+
+func exotic(id string) bool { return strings.ContainsAny(id, "/") || id == ".." || id == "." }
 var typeNames = []string{"NodeCredentials", "NodeInformation", "RootCertificates", "ServerLedActivationToken"}
 
 func mk(typ, id string, size int, tag string) nodeenrollment.MessageWithId {
@@ -112,9 +118,14 @@ func runSequence(t *rapid.T, backend vkit.Backend) {
 				}
 			case backend == vkit.StoreOnce && typ == "RootCertificates" && existed && err != nil && isDup(err):
 				// refusing to overwrite roots is also acceptable for the store-once back end
+			case err != nil && exotic(id):
+				flags["refused-id-with-path-separator"] = true
 			case err != nil:
 				fail("store-failed", "store %s failed: %v", k, err)
 			default:
+				if exotic(id) {
+					flags["stored-id-with-path-separator"] = true
+				}
 				if existed {
 					overwritten[k] = true
 				}
